@@ -31,6 +31,14 @@ CHECKS = {
   text="Seeded random directory trees and single files are added to a real file store, packed, copied through none/memory/OCI layout/registry model into a second file store under all option sets and several umasks, and the restored tree is compared entry by entry with a snapshot of the source; side phases check reproducible descriptors, refusal of tampered uncompressed digests and materialisation of equal-bytes names.",
   note="Runs as root (no permission-denied effects). Go's archive/tar, gzip and sha256 are trusted when inspecting archives. Special mode bits and single-file modes are counted, not judged. One known finding (IgnoreNoName + equal-bytes names) is listed.",
   tech="runtime monitoring: file-system snapshot-diff oracle over seeded trees and option sets"),
+ "C13": dict(cat="exploration",
+  text="Seeded histories (40-200 calls, 17 kinds) of Repository/Blobs()/Manifests() operations run against a stateful model of the distribution spec under random capability profiles and Repository options; after every call the result is compared with the registry's state, the state with an independent account of what the call should have done (including client-maintained referrers indexes), every request with a spec validator, and Read/Seek scripts with a bytes.Reader. Then single calls run with exactly one response field corrupted (19 corruptions x 13 operations): the call or the verified read of its body must fail where the field contradicts the request, and may otherwise only return the truth.",
+  note="Held on the executions observed. The registry is the model (regmodel), not a real server, over plain HTTP on loopback. Tolerated request shapes: n= on the referrers endpoint and n= added to a handed-out pagination URL. Unjudged: Resolve(tag) by HEAD without Docker-Content-Digest; fields the client has nothing to compare with; the profile (no Referrers API, GET without length, no digest header).",
+  tech="runtime monitoring: reference-state oracle plus request validator over seeded histories; single-field response corruption"),
+ "C17": dict(cat="fault_enumeration",
+  text="The real auth.Client -> http.Client -> retry.Transport stack (and remote.Repository pushes through it) runs against an in-process scripted base transport that records, per attempt, the bytes received, the send it belongs to, the policy's decision and monotonic times. Every script over 8 server-outcome classes up to length 4 (quick) / 5 (thorough) x 3 body kinds x MaxRetry 0-2 is enumerated; seeded random scripts, cancellation cases and repository pushes come on top; GenericPolicy.Retry / ExponentialBackoff are evaluated logically over a parameter grid with panics captured as witnesses.",
+  note="The scripted transport stands in for net/http.Transport plus a registry (no sockets). Inside each enumerated class the concrete status, size and token-service script are seed-drawn. Cancellation verdicts come from the attempt counter and a goroutine dump, not from timing. Held on the executions observed.",
+  tech="runtime monitoring: per-attempt byte/attempt/pause oracle over exhaustive and random server-behaviour scripts, logical policy sweep"),
 }
 
 PENDING_REASON = "check under construction in this session (not yet claimed); the technique applies"
